@@ -116,6 +116,17 @@ def run_case(case, ctx):
     a, b = float(rng.uniform(0.5, 2.0)), float(rng.uniform(0.5, 2.0))
     if case['use_args'] == 0:
         args, kwds = (), {}
+    elif case['use_args'] == 1 and case['seed'] % 3 == 1 and case['fun'] != 'sqrt':
+        # one extra argument that is itself a container (a tuple, a list, a dict of parameters): it is f's argument, as a whole
+        box = [(a, b), [a, b], dict(a=a, b=b), (a,), ()][(case['seed'] // 3) % 5]
+        ctx.count('single_extra_argument_is_a_container:' + type(box).__name__)
+        f_plain = f
+
+        def f(x_, params):
+            if isinstance(params, dict):
+                return f_plain(x_, params['a'], params['b'])
+            return f_plain(x_, *params)
+        args, kwds = (box,), {}
     elif case['use_args'] == 1:
         args, kwds = (a,), {}
     else:
